@@ -69,8 +69,17 @@ class _G:
     def nat_var(self, *a, **k): return None
 guppy = _G()
 def array(*xs): return list(xs)
-owned = comptime = None
+owned = None
+def comptime(x): return x
 nat = int
+def _fdiv(a, b):
+    """IEEE-754 division (CPython raises on a zero divisor)"""
+    import math
+    if b != 0:
+        return a / b
+    if a != a or a == 0:
+        return math.nan
+    return math.copysign(math.inf, a) * math.copysign(1.0, b)
 '''
 
 
@@ -228,6 +237,16 @@ def build_body(rng, name, tvs, nvs, args):
             stmts.append({"op": "natval", "v": a, "out": [r]})
             results.append((r, ("c", "int")))
     for v in usable:
+        if v["ty"] == ("c", "float"):
+            if rng.random() < 0.7:
+                r = fresh()
+                stmts.append({"op": "finv", "v": v, "out": [r]})
+                results.append((r, ("c", "float")))
+            if rng.random() < 0.5:
+                r = fresh()
+                stmts.append({"op": "fmul", "v": v, "out": [r]})
+                results.append((r, ("c", "float")))
+    for v in usable:
         if v["ty"][0] == "tv" and rng.random() < 0.6:
             r = fresh()
             stmts.append({"op": "ident", "v": v, "out": [r]})
@@ -316,25 +335,61 @@ def _mentions(ty, t):
     return False
 
 
-def gen_call(rng, c):
-    """a monomorphic instantiation of caller c: concrete types for its variables, literal comptime values"""
-    tmap = {t: ("c", rng.choice(CONC)) for t in c["tvs"]}
-    nmap = {n: rng.choice([1, 2, 3]) for n in c["nvs"]}
+# comptime float literals: signed zeros, ordinary values, infinities (`1e999`), nan; Python-equal but distinct constants
+FLOAT_LITS = ["0.0", "-0.0", "0.0", "-0.0", "1.5", "-2.25", "1e20", "0.5", "1e999", "-1e999", "comptime(1e999 - 1e999)"]
+FLOAT_TWIN = {"0.0": "-0.0", "-0.0": "0.0", "1e999": "-1e999", "-1e999": "1e999", "1.5": "-0.0", "0.5": "0.0"}
+EQ_TWIN = {("int", "1"): ("bool", "True"), ("int", "0"): ("bool", "False"), ("bool", "True"): ("int", "1"),
+           ("bool", "False"): ("int", "0")}
+
+
+def lit_value(v):
+    """python value of a generated comptime literal"""
+    return eval(v, {"comptime": lambda x: x, "__builtins__": {}})  # noqa: S307 (strings generated here)
+
+
+def gen_call(rng, c, base=None, force_t=None, force_val=None):
+    """a monomorphic instantiation of caller c: concrete types for its variables, literal comptime values.
+    With `base`: a twin of that call in which only the forced type variables / comptime literals differ."""
+    tmap = dict(base["tmap"]) if base else {t: ("c", rng.choice(CONC)) for t in c["tvs"]}
+    tmap.update(force_t or {})
+    nmap = dict(base["nmap"]) if base else {n: rng.choice([1, 2, 3]) for n in c["nvs"]}
     vals = []
-    for a in c["args"]:
+    for i, a in enumerate(c["args"]):
         ty = d_subst(a["ty"], tmap, nmap)
-        vals.append(_value(rng, ty, literal=a["mode"] == "comptime"))
+        if force_val and a["name"] in force_val:
+            vals.append(force_val[a["name"]])
+        elif base and not (force_t and any(_mentions(a["ty"], t) for t in force_t)):
+            vals.append(base["vals"][i])
+        else:
+            vals.append(_value(rng, ty, literal=a["mode"] == "comptime"))
     return {"caller": c["name"], "tmap": tmap, "nmap": nmap, "vals": vals}
+
+
+def gen_twins(rng, c, k):
+    """calls that differ from `k` only in a constant that Python's == / hash would identify with the original
+    (0.0 vs -0.0, 1 vs True, 0 vs False) or in one float comptime value"""
+    out = []
+    for a, v in zip(c["args"], k["vals"]):
+        if a["mode"] != "comptime":
+            continue
+        ty = d_subst(a["ty"], k["tmap"], k["nmap"])
+        if ty == ("c", "float"):
+            w = FLOAT_TWIN.get(v) or rng.choice([x for x in FLOAT_LITS if x != v])
+            out.append(gen_call(rng, c, base=k, force_val={a["name"]: w}))
+        elif a["ty"][0] == "tv" and (ty[1], v) in EQ_TWIN:
+            nt, nv = EQ_TWIN[(ty[1], v)]
+            out.append(gen_call(rng, c, base=k, force_t={a["ty"][1]: ("c", nt)}, force_val={a["name"]: nv}))
+    return out
 
 
 def _value(rng, ty, literal):
     if ty[0] == "c":
         if ty[1] == "int":
-            return str(rng.choice([1, 2, 5, -3])) if literal else rng.choice(["a", "a + 1", "2", "a * 2"])
+            return str(rng.choice([0, 1, 1, 2, 5, -3])) if literal else rng.choice(["a", "a + 1", "2", "a * 2"])
         if ty[1] == "nat":
             return str(rng.choice([0, 1, 4, 9]))
         if ty[1] == "float":
-            return str(rng.choice([0.5, 2.5, -1.25])) if literal else rng.choice(["f", "f * 2.0", "1.5", "f + 0.5"])
+            return rng.choice(FLOAT_LITS) if literal else rng.choice(["f", "f * 2.0", "1.5", "f + 0.5"])
         return rng.choice(["True", "False"]) if literal else rng.choice(["b", "not b", "True"])
     if ty[0] == "arr":
         return "array(" + ", ".join(_value(rng, ty[1], False) for _ in range(ty[2][1])) + ")"
@@ -352,7 +407,10 @@ def gen_program(rng, n_callers=None):
     calls = []
     for c in callers:
         for _ in range(rng.choice([1, 1, 2, 3])):
-            calls.append(gen_call(rng, c))
+            k = gen_call(rng, c)
+            calls.append(k)
+            if rng.random() < 0.5:
+                calls += gen_twins(rng, c, k)[:2]
     rng.shuffle(calls)
     return {"callers": callers, "calls": calls}
 
@@ -402,6 +460,10 @@ def _stmt_src(s, mode, sub, spec_use):
         return f"{s['out'][0]} = apply(ident[{d_src(vt)}], {v})"
     if op == "natval":
         return f"{s['out'][0]} = int({v})"
+    if op == "finv":
+        return f"{s['out'][0]} = _fdiv(1.0, {v})" if mode == "py" else f"{s['out'][0]} = 1.0 / {v}"
+    if op == "fmul":
+        return f"{s['out'][0]} = {v} * 3.0"
     raise ValueError(op)
 
 
